@@ -147,6 +147,8 @@ pub struct Stats {
     pub place_left: u64,
     pub place_right: u64,
     pub place_mid: u64,
+    #[serde(default)]
+    pub place_over: u64,
     pub ran_backend: [u64; 3],
     pub searcher_kind: [u64; 8],
     pub prefilter_kind: [u64; 5],
@@ -163,7 +165,7 @@ impl Stats {
             episodes, ops, ops_with_match, inner_evals, sched_steps, context_switches, seam_events, tick_preemptions, ticks,
             detect_runs, stale_reads_injected, stale_reads_eligible, forced_inert, needle_kills,
             sends, shares, recvs, alloc_positive_controls, lib_panics_documented,
-            lib_panics_other, place_left, place_right, place_mid, notes_model_mismatch,
+            lib_panics_other, place_left, place_right, place_mid, place_over, notes_model_mismatch,
             replay_diverged
         );
         macro_rules! arr { ($($f:ident),*) => { $( for i in 0..self.$f.len() { self.$f[i] += o.$f[i]; } )* } }
